@@ -550,6 +550,40 @@ fn run(ctx: &mut Ctx) {
                 let mut a = paths.clone();
                 a.insert(0, p);
                 refuse(ctx, "file without extension", a);
+                // an otherwise perfect continuation of the run whose extension differs from the known ones in case only,
+                // or is a near miss of them
+                let tlast = files.last().unwrap().t1;
+                for (k, ext) in ["MID", "Mid", "mid.LZ4", "MID.lz4", "midx", "mid.lz", "mid.lz4.bak", "lz4"].iter().enumerate() {
+                    let p = dir.join(format!("cont{}.{}", k, ext));
+                    let bytes = midas::file_bytes(run_number, tlast + 1, tlast + 2, &[]);
+                    if ext.to_lowercase().ends_with("lz4") && !ext.ends_with("bak") {
+                        // really lz4-compressed, so that only the name is wrong
+                        let q = dir.join(format!("tmp{}.mid.lz4", k));
+                        midas::write(&q, &bytes);
+                        std::fs::rename(&q, &p).unwrap();
+                    } else {
+                        std::fs::write(&p, &bytes).unwrap();
+                    }
+                    let mut a = paths.clone();
+                    a.push(p);
+                    refuse(ctx, "unknown extension (case / near miss)", a);
+                }
+                // the very same file given twice: as the same path, through a path alias, through a symbolic link
+                let j = rng.usize(nfiles);
+                let mut a = paths.clone();
+                a.insert(rng.usize(a.len() + 1), paths[j].clone());
+                refuse(ctx, "duplicate initial timestamp (the same file twice)", a);
+                let alias = dir.join("sub").join("..").join(paths[j].file_name().unwrap());
+                let _ = std::fs::create_dir_all(dir.join("sub"));
+                let mut a = paths.clone();
+                a.push(alias);
+                refuse(ctx, "duplicate initial timestamp (the same file through a path alias)", a);
+                let link = dir.join(format!("link.{}", if paths[j].to_string_lossy().ends_with("lz4") { "mid.lz4" } else { "mid" }));
+                if std::os::unix::fs::symlink(&paths[j], &link).is_ok() {
+                    let mut a = paths.clone();
+                    a.insert(0, link);
+                    refuse(ctx, "duplicate initial timestamp (a symbolic link to a listed file)", a);
+                }
             }
         }
         let _ = std::fs::remove_dir_all(&dir);
